@@ -20,8 +20,8 @@ func (m Msg) String() string {
 	switch m.Op {
 	case "open", "change":
 		return fmt.Sprintf("%s(%s,%dB)", m.Op, m.Doc, len(m.Text))
-	case "config":
-		return "config(" + m.Text + ")"
+	case "config", "configq":
+		return m.Op + "(" + m.Text + ")"
 	}
 	if m.Doc != "" {
 		return fmt.Sprintf("%s(%s@%d:%d)", m.Op, m.Doc, m.Line, m.Char)
@@ -32,7 +32,7 @@ func (m Msg) String() string {
 // IsRequest reports whether the message expects a response.
 func (m Msg) IsRequest() bool {
 	switch m.Op {
-	case "open", "change", "close", "save", "initialized", "config":
+	case "open", "change", "close", "save", "initialized", "config", "configq":
 		return false
 	}
 	return true
@@ -59,6 +59,10 @@ func (s *Session) Do(m Msg, dir string) Reply {
 		return s.DidSave(uri)
 	case "config":
 		s.Client.SetConfig(m.Text)
+		return s.Notify("workspace/didChangeConfiguration", `{"settings":null}`)
+	case "configq":
+		// the answer is bound to this notification's pull (k-th pull, k-th answer)
+		s.Client.QueueConfig(m.Text)
 		return s.Notify("workspace/didChangeConfiguration", `{"settings":null}`)
 	case "completion":
 		return s.Call("textDocument/completion", DocPos(uri, m.Line, m.Char))
